@@ -67,8 +67,9 @@ Definition nontrivial_case (inp : list Z) : bool :=
   existsb (fun r => existsb (fun ev => match ev with EPending _ _ => true | _ => false end)
                             (o_events (r_obs r))) h.
 
+(* known finding D6 only when the implementation's WHOLE observable equals the faithful model's *)
 Definition finding_sig (inp obs : list Z) : Z :=
-  if prop_case inp obs =? 6 then 1 else 0.
+  if eq_listZ (run_case inp) obs && (prop_case inp obs =? 6) then 1 else 0.
 
 Require Extraction.
 Require Import ExtrOcamlBasic.
